@@ -75,6 +75,32 @@ func ruleL23(p *Prog, r *Report) {
 			for i, o := range objs {
 				n++
 				isFK := func(z ssa.Instruction) bool {
+					// a helper method of the same slab type that refreshes its receiver's first digest on every success path
+					if cc, ok := z.(ssa.CallInstruction); ok {
+						if g := staticCallee(cc); g != nil && g.Pkg == p.RootSSA && recvName(g) == "MapDataSlab" && len(g.Params) > 0 && len(g.Blocks) > 0 &&
+							len(cc.Common().Args) > 0 && (sameValue(cc.Common().Args[0], o) || sameObj(cc.Common().Args[0], o)) {
+							grecv := g.Params[0]
+							inner := func(y ssa.Instruction) bool {
+								st, ok := y.(*ssa.Store)
+								if !ok {
+									return false
+								}
+								fa, ok := st.Addr.(*ssa.FieldAddr)
+								if !ok {
+									return false
+								}
+								if _, fn := structFieldName(fa.X.Type(), fa.Field); fn != "firstKey" {
+									return false
+								}
+								in2, ok := fa.X.(*ssa.FieldAddr)
+								return ok && sameValue(in2.X, grecv)
+							}
+							if successReturnAvoiding(g, nil, inner) == nil {
+								return true
+							}
+						}
+						return false
+					}
 					st, ok := z.(*ssa.Store)
 					if !ok {
 						return false
